@@ -184,7 +184,7 @@ func httpCases(r *rng) []rawHTTP {
 		add("GET", "/promises/"+pick(r, []string{"p", "a/b", "a%2Fb"}), "", hdr())
 		add("POST", "/callbacks", j(map[string]any{"Id": pv(), "promiseId": pv(), "rootPromiseId": pv(), "timeout": pv(), "recv": pick(r, []any{nil, "default", map[string]any{"type": "poll", "data": nil}, 5, []any{}, map[string]any{}})}), hdr())
 		add("POST", "/subscriptions", j(map[string]any{"Id": pv(), "promiseId": pv(), "timeout": pv(), "recv": pick(r, []any{nil, "default", map[string]any{"type": "x"}, 5})}), hdr())
-		add("POST", "/schedules", j(map[string]any{"id": pv(), "cron": pick(r, []any{"* * * * *", "", "x", nil, 5, "@every 1s", "* * * * * * *", "TZ=UTC", "CRON_TZ=Europe/Paris", "TZ=UTC * * * * *", "@every", "@"}), "promiseId": pv(), "promiseTimeout": pv(), "promiseParam": pv(), "promiseTags": pv(), "tags": pv()}), hdr())
+		add("POST", "/schedules", j(map[string]any{"id": pv(), "cron": pick(r, []any{"* * * * *", "", "x", nil, 5, "@every 1s", "* * * * * * *", "TZ=UTC", "CRON_TZ=Europe/Paris", "TZ=UTC * * * * *", "@every", "@", "TZ=UTC ", "CRON_TZ=UTC \n", "TZ= ", " TZ=UTC", "@daily\n", " * * * * * ", "TZ=UTC\t* * * * *", "TZ=UTC\t@daily", "TZ=UTC\n@hourly", "TZ=UTC\u00a0@daily"}), "promiseId": pv(), "promiseTimeout": pv(), "promiseParam": pv(), "promiseTags": pv(), "tags": pv()}), hdr())
 		add("GET", "/schedules?id="+pick(r, []string{"*", ""})+"&limit="+pick(r, []string{"", "0", "-1", "101", "5"}), "", hdr())
 		add("GET", "/schedules?cursor="+pick(r, forgedCursors()), "", hdr())
 		add("DELETE", "/schedules/"+pick(r, []string{"s", "a/b"}), "", hdr())
@@ -353,7 +353,7 @@ func cmdFront(args []string) {
 			call(fmt.Sprintf("ReleaseLock %v", rl), func() error { _, e := gs.ReleaseLock(ctx, rl); return e })
 			hl := &pb.HeartbeatLocksRequest{ProcessId: pick(r, strs)}
 			call(fmt.Sprintf("HeartbeatLocks %v", hl), func() error { _, e := gs.HeartbeatLocks(ctx, hl); return e })
-			sc := &pb.CreateScheduleRequest{Id: pick(r, strs), Cron: pick(r, []string{"", "x", "* * * * *", "@every 1s", "TZ=UTC", "CRON_TZ=Europe/Paris", "TZ=UTC * * * * *", "@every", "@"}), PromiseId: pick(r, strs), PromiseTimeout: pick(r, i64), PromiseParam: pick(r, vals)}
+			sc := &pb.CreateScheduleRequest{Id: pick(r, strs), Cron: pick(r, []string{"", "x", "* * * * *", "@every 1s", "TZ=UTC", "CRON_TZ=Europe/Paris", "TZ=UTC * * * * *", "@every", "@", "TZ=UTC ", "CRON_TZ=UTC \n", "TZ= ", " TZ=UTC", "@daily\n", " * * * * * ", "TZ=UTC\t* * * * *", "TZ=UTC\t@daily", "TZ=UTC\n@hourly", "TZ=UTC\u00a0@daily"}), PromiseId: pick(r, strs), PromiseTimeout: pick(r, i64), PromiseParam: pick(r, vals)}
 			call(fmt.Sprintf("CreateSchedule %v", sc), func() error { _, e := gs.CreateSchedule(ctx, sc); return e })
 			ss := &pb.SearchSchedulesRequest{Id: pick(r, []string{"", "*"}), Limit: pick(r, i32), Cursor: pick(r, []string{"", "garbage"})}
 			call(fmt.Sprintf("SearchSchedules %v", ss), func() error { _, e := gs.SearchSchedules(ctx, ss); return e })
